@@ -45,6 +45,20 @@ print(' | '.join('test(~%s)' % n for n in names))")
     j=$(find target/nextest -name junit.xml | head -1)
     check "$j" /tmp/baseline_retry_$$.txt ; rc=$?
     [ $rc -eq 0 ] && echo "stable tests passing: 98/98 (after 2-thread re-run of $n)"
+    if [ $rc -ne 0 ]; then
+      # still failing under machine load: serial re-run with retries of what is left
+      cp /tmp/baseline_bad.txt /tmp/baseline_retry2_$$.txt
+      expr=$(python3 -c "
+import sys
+names=[l.strip().split('::')[-1] for l in open('/tmp/baseline_retry2_$$.txt') if l.strip()]
+print(' | '.join('test(~%s)' % n for n in names))")
+      echo "re-running $(wc -l < /tmp/baseline_retry2_$$.txt) test(s) serially with retries"
+      rm -rf target/nextest/pb
+      CARGO_NET_OFFLINE=true cargo nextest run --workspace --no-fail-fast --tool-config-file pb:/w/lib/nextest.toml --profile pb --test-threads 1 --retries 3 --offline -E "$expr" > /tmp/baseline_retry2_$$.log 2>&1
+      j=$(find target/nextest -name junit.xml | head -1)
+      check "$j" /tmp/baseline_retry2_$$.txt ; rc=$?
+      [ $rc -eq 0 ] && echo "stable tests passing: 98/98 (after serial re-run with retries)"
+    fi
   fi
 fi
 exit $rc
